@@ -103,9 +103,9 @@ JUDGES = {"vanity": judge}
 
 def shards(tier, seed):
     T = tier == "thorough"
-    return ([{"name": "singles-%d" % i, "part": i, "reps": 3 if T else 1, "exhaustive": "all 16 single digits and the 6 upper-case letters"} for i in range(4)]
-            + [{"name": "multi-%d" % i, "count": 24 if T else 5, "three": T} for i in range(8)]
-            + [{"name": "winners-%d" % i, "count": 12 if T else 4} for i in range(4)]
+    return ([{"name": "singles-%d" % i, "part": i, "reps": 8 if T else 2, "exhaustive": "all 16 single digits and the 6 upper-case letters"} for i in range(4)]
+            + [{"name": "multi-%d" % i, "count": 80 if T else 8, "three": T} for i in range(8)]
+            + [{"name": "winners-%d" % i, "count": 60 if T else 6} for i in range(4)]
             + [{"name": "nonhex"}])
 
 
